@@ -265,7 +265,7 @@ func (s *sys) applyPH(args []string) string {
 		ph.Signature = flipBit(ph.Signature)
 	case "nokey":
 		ph.ProposerPubKey = nil
-	case "badpcp", "shortpcp", "foreignpcp", "duppcp", "emptypcp":
+	case "badpcp", "shortpcp", "foreignpcp", "duppcp", "emptypcp", "pcpidN", "pcpidlen1":
 		pcp := ph.Header.PrevCommitProof.Clone()
 		mh := string(ph.Header.PrevBlockHash)
 		switch variant {
@@ -286,6 +286,19 @@ func (s *sys) applyPH(args []string) string {
 			}
 		case "emptypcp":
 			pcp.Proofs = map[string][]gcrypto.SparseSignature{}
+		case "pcpidN":
+			// An extra entry whose key id is exactly one past the last validator.
+			if len(pcp.Proofs[mh]) > 0 {
+				extra := pcp.Proofs[mh][0]
+				extra.KeyID = keyID(nVals)
+				pcp.Proofs[mh] = append(pcp.Proofs[mh], extra)
+			}
+		case "pcpidlen1":
+			if len(pcp.Proofs[mh]) > 0 {
+				extra := pcp.Proofs[mh][0]
+				extra.KeyID = []byte{1}
+				pcp.Proofs[mh] = append(pcp.Proofs[mh], extra)
+			}
 		}
 		ph.Header.PrevCommitProof = pcp
 		ph.Header.DataID = []byte("pcp-" + variant)
@@ -417,6 +430,17 @@ func (s *sys) applyVote(args []string) (string, bool) {
 	case "idrange":
 		for i := range sigs {
 			sigs[i].KeyID = keyID(9)
+		}
+		allInvalid = true
+	case "idN":
+		// Exactly one past the last validator.
+		for i := range sigs {
+			sigs[i].KeyID = keyID(nVals)
+		}
+		allInvalid = true
+	case "idmax":
+		for i := range sigs {
+			sigs[i].KeyID = []byte{0xff, 0xff}
 		}
 		allInvalid = true
 	case "idlen0":
